@@ -95,4 +95,32 @@ PROPS = {
         'assumptions': [],
         'targets': ['Corr/Dispatch.vo', 'Proto/Run.vo'],
     },
+    'C01': {
+        'level_text': 'Theorems on the symbolic AKE for all messages and states: the reported peer key changes only after the m2-MAC, the decryption under c and the signature check over M (both DH values, key, key id) all passed, otherwise nothing changes; out-of-range DH values never pass; completion installs the session id / role of that exchange; mirrored session keys. Scenario correspondence every run over per-field damage, out-of-range values, truncation, re-tagging, duplicates, cross-session replay and a re-signing impersonator.',
+        'level_note': 'the global invariant over all histories (ake_auth_inv) is not yet proved as one theorem; unforgeability of DSA/HMAC is the symbolic idealisation.',
+        'trusted': ['the conversation model is symbolic: DH values are exponent ids, shared secrets unordered pairs, keys (secret, role) terms, a MAC verifies iff it was computed with the same key over the same fields (perfect-cryptography idealisation)', 'internal projections (key ids, list lengths, state names) are read through the verif-tagged hook VerifSnapshot'],
+        'assumptions': ['EUF-CMA of DSA and HMAC-SHA256, CDH in the 1536-bit group'],
+        'targets': ['Corr/Dispatch.vo', 'Proto/Run.vo'],
+    },
+    'C03': {
+        'level_text': 'Theorems for every conversation state, policy set and text: Send in finished emits nothing new and fails; Send in plaintext under require-encryption emits only the query and queues the text; Send while encrypted emits only error replies or a data message whose payload is encrypted and MACed under the sending key of the current DH pair. Lifecycle histories over random policy pairs compared with the model every run; wire-search oracle (raw and base64).',
+        'level_note': 'that AES-CTR ciphertext does not reveal the text is a property of the cipher (measured by the oracle only); release of queued texts only inside data messages is covered by correspondence + oracle.',
+        'trusted': ['the conversation model is symbolic: DH values are exponent ids, shared secrets unordered pairs, keys (secret, role) terms, a MAC verifies iff it was computed with the same key over the same fields (perfect-cryptography idealisation)', 'internal projections (key ids, list lengths, state names) are read through the verif-tagged hook VerifSnapshot'],
+        'assumptions': ['AES-128-CTR hides the plaintext'],
+        'targets': ['Corr/Dispatch.vo', 'Proto/Run.vo'],
+    },
+    'C07': {
+        'level_text': 'Verified exhaustive exploration: explore_sound (induction on fuel) + kernel evaluation over all single-sided start patterns and refreshes x all version-policy pairs sharing a version x both outcomes of the hash comparison: EVERY delivery schedule completes with both sides encrypted in one session. Simultaneous start is refuted by the model and the code (known finding). The same start patterns are driven on the real code with random interleavings every run.',
+        'level_note': 'bound: at most one start event per side plus a refresh; clock ticks inside an exchange are not explored in Coq.',
+        'trusted': ['the conversation model is symbolic: DH values are exponent ids, shared secrets unordered pairs, keys (secret, role) terms, a MAC verifies iff it was computed with the same key over the same fields (perfect-cryptography idealisation)', 'internal projections (key ids, list lengths, state names) are read through the verif-tagged hook VerifSnapshot'],
+        'assumptions': [],
+        'targets': ['Corr/Dispatch.vo', 'Proto/Run.vo'],
+    },
+    'C18': {
+        'level_text': 'Theorems: the three state changes (AKE completion, End, Send while finished) with their exact events and key/queue effects, for all states. Lifecycle histories over random policy pairs compared with the model every run; oracles: GoneSecure/GoneInsecure/StillSecure exactly on the flips of IsEncrypted, Send refuses after peer disconnect, each text received at most once plain and once marked resent.',
+        'level_note': 'the frame property (only these places change the message state, over all branches of step) is checked by correspondence + oracle, not yet by one theorem.',
+        'trusted': ['the conversation model is symbolic: DH values are exponent ids, shared secrets unordered pairs, keys (secret, role) terms, a MAC verifies iff it was computed with the same key over the same fields (perfect-cryptography idealisation)', 'internal projections (key ids, list lengths, state names) are read through the verif-tagged hook VerifSnapshot'],
+        'assumptions': [],
+        'targets': ['Corr/Dispatch.vo', 'Proto/Run.vo'],
+    },
 }
